@@ -147,6 +147,7 @@ def file_cases(level, ext):
                 c.append(("xz", "d", T, o + ("K" if o else "")))
                 c.append(("xz", "t", T, o))
             c.append(("xz", "dcfile", T, ""))
+            c.append(("xz", "t", T, "q")); c.append(("xz", "dc", T, "q"))
         c.append(("xz", "dcstdin", 1, ""))
         c.append(("xz", "dcstdin", 4, "S"))
         c += [("xzdec", "file", 0, ""), ("xzdec", "stdin", 0, "")]
@@ -157,7 +158,7 @@ def file_cases(level, ext):
               ("xz", "dc", 1, "S"), ("xz", "dc", 1, "I"), ("xz", "dc", 1, "F"), ("xz", "dc", 1, "Q"),
               ("xz", "dc", 4, "S"), ("xz", "dc", 4, "I"),
               ("xz", "d", 1, "K"), ("xz", "d", 4, "K"), ("xz", "d", 1, "S"),
-              ("xz", "t", 1, ""), ("xz", "t", 4, ""),
+              ("xz", "t", 1, ""), ("xz", "t", 4, ""), ("xz", "t", 1, "q"), ("xz", "dc", 1, "q"),
               ("xz", "dcfile", 1, ""),
               ("xzdec", "file", 0, "")]
         if ext == "lzma":
@@ -165,7 +166,7 @@ def file_cases(level, ext):
     return c
 
 
-OPTFLAGS = {"S": "--single-stream", "I": "--ignore-check", "F": "-f", "Q": "-Q", "K": "-k"}
+OPTFLAGS = {"S": "--single-stream", "I": "--ignore-check", "F": "-f", "Q": "-Q", "K": "-k", "q": "-qq"}   # q: messages off, status unchanged
 
 
 class Prefix(bytes):
